@@ -8,11 +8,14 @@ AsSet(s) == { s[i] : i \in 1..Len(s) }
 SetToSeq2(S) == LET RECURSIVE f(_) f(T) == IF T = {} THEN <<>> ELSE LET x == CHOOSE y \in T : \A z \in T : y <= z IN <<x>> \o f(T \ {x}) IN f(S)
 Gen(c) == [points |-> SetToSeq2(SuggestedPoints(c.nx, AsSet(c.wx), AsSet(c.wy))),
            conflicts |-> Cardinality(Conflicts(AsSet(c.wx), AsSet(c.wy)))]
-VARIABLE i
-Init == i = 1
-Next == /\ i <= NCases
-        /\ PrintT(<<"B", CasesIn[i].id>>)
-        /\ PrintT(<<"G", CasesIn[i].id, ToJson(Gen(CasesIn[i]))>>)
-        /\ i' = i + 1
+\* NOTE on the variable's name: a state variable that shares its name with bound variables / operator parameters of the extended
+\* modules (i, s, c, d ...) makes TLC treat those expressions as state-level and stop caching lazily evaluated values
+\* (measured: 240 s instead of 3 s for one 200-element array). Hence the unusual name.
+VARIABLE casepos
+Init == casepos = 1
+Next == /\ casepos <= NCases
+        /\ PrintT(<<"B", CasesIn[casepos].id>>)
+        /\ PrintT(<<"G", CasesIn[casepos].id, ToJson(Gen(CasesIn[casepos]))>>)
+        /\ casepos' = casepos + 1
 AllJudged == TLCGet("stats").diameter - 1 = NCases
 =============================================================================
